@@ -111,6 +111,7 @@ static uint32_t mk_rc(void) { uint32_t r = nondet_u32(); __CPROVER_assume(r >= 1
 #define M_HASHMAP 512u  /* hashmap with at most one entry per bucket chain */
 #define M_INT 128u      /* TAG_INT only */
 #define M_BOOL 256u     /* TAG_BOOL only */
+#define M_FLOAT 1024u   /* TAG_FLOAT only, any bit pattern (NaN payloads, +-0, inf, subnormals) */
 #define M_ANY 127u      /* hashmaps only where the registry asks for them (M_HASHMAP): they triple the formula */
 #ifndef VERIF_ARR_CAP
 #define VERIF_ARR_CAP (1u << 20)   /* arrays of any length up to 2^20; obligations whose handler loops over the elements pin a small cap and are labelled bounded */
@@ -129,6 +130,7 @@ static uint32_t mk_rc(void) { uint32_t r = nondet_u32(); __CPROVER_assume(r >= 1
 static NanoValue mk_value(unsigned mask, uint32_t *len_out)
 {
     if (mask == M_INT) { NanoValue iv = {0}; iv.tag = TAG_INT; iv.as.i64 = nondet_i64(); *len_out = 0; return iv; }
+    if (mask == M_FLOAT) { NanoValue fv = {0}; fv.tag = TAG_FLOAT; fv.as.i64 = nondet_i64(); *len_out = 0; return fv; }
     if (mask == M_BOOL) { NanoValue bv = {0}; bv.tag = TAG_BOOL; bv.as.boolean = nondet_bool(); *len_out = 0; return bv; }
     unsigned kind = nondet_u16();
     __CPROVER_assume(kind == M_SCALAR || kind == M_STRING || kind == M_ARRAY || kind == M_STRUCT || kind == M_UNION ||
@@ -487,4 +489,35 @@ void h_c02(void)
     default: __CPROVER_assert(0, "C02.vm harness used with a non-operator opcode");
     }
     VERIF_COVER(t.type == TRAP_HALT);
+}
+
+/* ---- C02.vm.<OP>f: float operators = the same C double operation on (a, b), results compared as bit patterns ---- */
+static inline uint64_t dbits(double d) { uint64_t u; memcpy(&u, &d, 8); return u; }
+void h_c02f(void)
+{
+    build_state();
+    VmState *vm = g_vm;
+    uint8_t K = (uint8_t)VERIF_OP;
+    __CPROVER_assume(in_stack_size >= 2 && in_v0.tag == TAG_FLOAT && in_v1.tag == TAG_FLOAT);
+    double b = in_v0.as.f64, a = in_v1.as.f64;
+    uint32_t ss0 = vm->stack_size;
+    VmTrap t = vm_core_execute(vm);
+    __CPROVER_assert(t.type == TRAP_HALT || t.type == TRAP_NONE, "C02.vm float operator step does not trap");
+    __CPROVER_assert(vm->stack_size == ss0 - 1, "C02.vm float operands consumed, one result pushed");
+    NanoValue r = vm->stack[vm->stack_size - 1];
+    switch (K) {
+    case OP_ADD: __CPROVER_assert(r.tag == TAG_FLOAT && dbits(r.as.f64) == dbits(a + b), "C02.vm ADDf == C double +"); break;
+    case OP_SUB: __CPROVER_assert(r.tag == TAG_FLOAT && dbits(r.as.f64) == dbits(a - b), "C02.vm SUBf == C double -"); break;
+    case OP_MUL: __CPROVER_assert(r.tag == TAG_FLOAT && dbits(r.as.f64) == dbits(a * b), "C02.vm MULf == C double *"); break;
+    case OP_DIV: __CPROVER_assert(r.tag == TAG_FLOAT && (b == 0.0 ? dbits(r.as.f64) == dbits(0.0) : dbits(r.as.f64) == dbits(a / b)),
+                                  "C02.vm DIVf == C double / (total: x / 0.0 = 0.0, isa.h)"); break;
+    case OP_EQ: __CPROVER_assert(r.tag == TAG_BOOL && r.as.boolean == (a == b), "C02.vm EQf == C double =="); break;
+    case OP_NE: __CPROVER_assert(r.tag == TAG_BOOL && r.as.boolean == (a != b), "C02.vm NEf == C double !="); break;
+    case OP_LT: __CPROVER_assert(r.tag == TAG_BOOL && r.as.boolean == (a < b), "C02.vm LTf == C double <"); break;
+    case OP_LE: __CPROVER_assert(r.tag == TAG_BOOL && r.as.boolean == (a <= b), "C02.vm LEf == C double <="); break;
+    case OP_GT: __CPROVER_assert(r.tag == TAG_BOOL && r.as.boolean == (a > b), "C02.vm GTf == C double >"); break;
+    case OP_GE: __CPROVER_assert(r.tag == TAG_BOOL && r.as.boolean == (a >= b), "C02.vm GEf == C double >="); break;
+    default: __CPROVER_assert(0, "C02.vm float harness used with a non-operator opcode");
+    }
+    VERIF_COVER(t.type == TRAP_HALT && a != a);      /* NaN operands are part of the domain */
 }
